@@ -164,7 +164,9 @@ pub fn read_string<'a>(buf: &mut &'a [u8]) -> Result<&'a str, LowLevelDeserializ
 
 pub fn read_string_list(buf: &mut &[u8]) -> Result<Vec<String>, LowLevelDeserializationError> {
     let len = read_short_length(buf)?;
-    let mut v = Vec::with_capacity(len);
+    // The count comes from the wire: do not preallocate more entries
+    // than the remaining bytes could possibly describe.
+    let mut v = Vec::with_capacity(len.min(buf.len() / 2));
     for _ in 0..len {
         v.push(read_string(buf)?.to_owned());
     }
